@@ -87,7 +87,8 @@ def invalidateCache (cfg : Cfg) (req : Req) (respH : Header) (refs : List Ref) (
 
 /-! ### responsestorerer.go -/
 
-def sameVariant (a b : Ref) : Bool := a.id = b.id && a.vary = b.vary && a.resolved = b.resolved
+/-- one variant: the same identifier and the same nominated fields and values, however the Vary value was spelled -/
+def sameVariant (a b : Ref) : Bool := a.id = b.id && a.resolved = b.resolved
 
 def placeRef (refs : List Ref) (refIndex : Option Nat) (ref : Ref) : List Ref × Nat :=
   match refIndex with
